@@ -124,8 +124,13 @@ impl PageCache {
         };
 
         let mut found_victim = None;
-        // Attempt to iterate over all the frames.
-        while self.cursor <= self.frames.len() && found_victim.is_none() {
+        // Clock sweep: look at every frame once, starting where the previous sweep stopped and
+        // wrapping around (a cursor that only ever grows would skip frames that became free
+        // behind it and report out-of-memory although a victim exists).
+        for _ in 0..self.frames.len() {
+            if self.cursor >= self.frames.len() {
+                self.cursor = 0;
+            }
             if let Some((pid, frame)) = self.frames.get_index(self.cursor) {
                 if frame.is_free() {
                     self.stats.eviction();
